@@ -201,6 +201,7 @@ fn c02_two(n: usize, t: u32, tmax: u32) {
     kani::cover!(true, "REACH end of harness");
     std::mem::forget(rt);
 }
+rt_harness!(c02_two_n1t8, 5, c02_two(1, 8, 3));
 rt_harness!(c02_two_n1t2, 5, c02_two(1, 2, 3));
 rt_harness!(c02_two_n2t2, 5, c02_two(2, 2, 5));
 
@@ -312,9 +313,9 @@ fn c10_cut_k(n: usize, t: u32, tmax: u32, same: bool, k: usize) {
     assert!(rt.app.n == k, "C10 exactly n handlers ran");
     assert!(rt.num_events_remaining() == 3 - k, "C10 undelivered events are counted as remaining");
     assert!(rt.sim_time() == st(ts[k - 1]), "C10 paused runtime reports the time of the last dispatched event");
-    kani::cover!(a == b && b == c && a == 0, "REACH cut inside a same-instant group at time zero");
-    kani::cover!(a == b && b == c && a > 0, "REACH cut inside a same-instant group at a later instant");
-    kani::cover!(ts[k - 1] < ts[k], "REACH cut between different instants");
+    kani::cover!(a == b && b == c && a == 0, "COVER cut inside a same-instant group at time zero");
+    kani::cover!(a == b && b == c && a > 0, "COVER cut inside a same-instant group at a later instant");
+    kani::cover!(ts[k - 1] < ts[k], "COVER cut between different instants");
     // resume (straight-line dispatch_event calls: same code path as dispatch_all's loop body)
     let mut i = k;
     while i < 3 {
@@ -333,6 +334,9 @@ fn c10_cut_k(n: usize, t: u32, tmax: u32, same: bool, k: usize) {
     kani::cover!(true, "REACH end of harness");
     std::mem::forget(rt);
 }
+rt_harness!(c10_cut1_same_instant_n1t8, 5, c10_cut_k(1, 8, 3, true, 1));
+rt_harness!(c10_cut1_n1t8, 5, c10_cut_k(1, 8, 3, false, 1));
+rt_harness!(c10_cut2_n1t8, 5, c10_cut_k(1, 8, 3, false, 2));
 rt_harness!(c10_cut1_same_instant_n1t2, 5, c10_cut_k(1, 2, 3, true, 1));
 rt_harness!(c10_cut2_same_instant_n1t2, 5, c10_cut_k(1, 2, 3, true, 2));
 rt_harness!(c10_cut1_n1t2, 5, c10_cut_k(1, 2, 3, false, 1));
@@ -352,12 +356,20 @@ fn c10_paused_add(n: usize, t: u32, tmax: u32) {
     kani::cover!(x < b, "REACH externally added event earlier than the put-back event");
     rt.add_event(Ev::Leaf(2), st(x));
     assert!(rt.num_events_remaining() == 2, "C10 paused runtime accepts new events at any time not earlier than the reported time");
-    rt.dispatch_all();
-    assert!(rt.app.n == 3, "C10 every event executed exactly once after an external add");
-    assert!(rt.app.times[1] <= rt.app.times[2] && rt.app.times[0] <= rt.app.times[1], "C10 events after an external add still run in timestamp order");
+    let stop = rt.dispatch_event();
+    assert!(!stop && rt.app.n == 2, "C10 resumed run dispatches the next event");
+    // next event is the earlier of the two.  Tie x == b (C03 rule): if the tie is at the current
+    // instant a > 0 the new event is a current-instant event and runs first (b was scheduled for
+    // that instant while it was still in the future); at a == 0 both are current-instant events
+    // and keep scheduling order; on a later tie the older event runs first.
+    let new_first = x < b || (x == b && x == a && a > 0);
+    let (wid, wt) = if new_first { (2u8, x) } else { (1u8, b) };
+    assert!(rt.app.ids[1] == wid && rt.app.times[1] == wt, "C10 events after an external add still run in timestamp order");
+    kani::cover!(x == b, "COVER externally added event ties with the pending one");
     kani::cover!(true, "REACH end of harness");
     std::mem::forget(rt);
 }
+rt_harness!(c10_paused_add_n1t8, 5, c10_paused_add(1, 8, 3));
 rt_harness!(c10_paused_add_n1t2, 5, c10_paused_add(1, 2, 3));
 
 /// dispatch_events_until(T') dispatches exactly the events with timestamp <= T'
@@ -385,21 +397,41 @@ fn c10_until(n: usize, t: u32, tmax: u32) {
     kani::cover!(true, "REACH end of harness");
     std::mem::forget(rt);
 }
+rt_harness!(c10_until_n1t8, 5, c10_until(1, 8, 3));
 rt_harness!(c10_until_n1t2, 5, c10_until(1, 2, 3));
 rt_harness!(c10_until_n2t1, 5, c10_until(2, 1, 3));
+
+/// one pending event: dispatch_events_until(T') dispatches it iff its timestamp <= T';
+/// dispatch_n_events(0) dispatches nothing; the configured limit is restored afterwards
+fn c10_until1(n: usize, t: u32) {
+    let mut rt = mk_rt(n, t, RuntimeLimit::EventCount(7));
+    let a = any_in(0, 3);
+    rt.add_event(Ev::Leaf(0), st(a));
+    rt.dispatch_n_events(0);
+    assert!(rt.num_events_dispatched() == 0 && rt.num_events_remaining() == 1 && rt.app.n == 0, "C10 dispatch_n_events(0) dispatches nothing and loses nothing");
+    let lim = any_in(0, 3);
+    rt.dispatch_events_until(st(lim));
+    let want = (a <= lim) as usize;
+    assert!(rt.num_events_dispatched() == want && rt.app.n == want, "C10 dispatch_events_until(t) dispatches exactly the events with timestamp <= t");
+    assert!(rt.num_events_remaining() == 1 - want, "C10 undelivered events are counted as remaining");
+    assert!(rt.sim_time() == st(if want == 1 { a } else { 0 }), "C10 paused runtime reports the time of the last dispatched event");
+    assert!(rt.limit == RuntimeLimit::EventCount(7), "C10 stepping restores the configured limit");
+    kani::cover!(a == lim, "REACH event exactly at the until-time");
+    kani::cover!(true, "REACH end of harness");
+    std::mem::forget(rt);
+}
+rt_harness!(c10_until1_n1t8, 5, c10_until1(1, 8));
 
 // ---------------------------------------------------------------------------
 // C11
 // ---------------------------------------------------------------------------
 
 /// limit of a *concrete* shape with symbolic parameters (a symbolic shape would make CBMC
-/// unroll the recursive `applies`/clone/drop glue exponentially up to the loop bound).
+/// unroll the recursive `applies`/drop glue exponentially up to the loop bound).
 /// 0 None, 1 EventCount(n), 2 SimTime(T), 3 And(EventCount, SimTime), 4 Or(EventCount, SimTime),
-/// 5 Or(SimTime, EventCount)  (= Builder::max_time(..).max_itr(..))
-fn mk_limit(shape: u8) -> RuntimeLimit {
-    let n: usize = kani::any();
-    kani::assume(n <= 3);
-    let t = st(any_in(0, 4));
+/// 5 Or(SimTime, EventCount) built the way Builder::max_time(..).max_itr(..) composes limits
+fn mk_limit(shape: u8, n: usize, t: u32) -> RuntimeLimit {
+    let t = st(t);
     match shape {
         0 => RuntimeLimit::None,
         1 => RuntimeLimit::EventCount(n),
@@ -415,79 +447,89 @@ fn mk_limit(shape: u8) -> RuntimeLimit {
     }
 }
 
-/// reference semantics of a limit: does it stop before the `count`-th event at time `t`?
-fn stops(l: &RuntimeLimit, count: usize, t: u32) -> bool {
-    match l {
-        RuntimeLimit::None => false,
-        RuntimeLimit::EventCount(n) => count > *n,
-        RuntimeLimit::SimTime(x) => st(t) > *x,
-        RuntimeLimit::CombinedAnd(a, b) => stops_leaf(a, count, t) && stops_leaf(b, count, t),
-        RuntimeLimit::CombinedOr(a, b) => stops_leaf(a, count, t) || stops_leaf(b, count, t),
-    }
-}
-fn stops_leaf(l: &RuntimeLimit, count: usize, t: u32) -> bool {
-    match l {
-        RuntimeLimit::EventCount(n) => count > *n,
-        RuntimeLimit::SimTime(x) => st(t) > *x,
-        _ => false,
+/// specification: does a limit of `shape` stop before the `count`-th event at time `time`?
+fn stops(shape: u8, n: usize, t: u32, count: usize, time: u32) -> bool {
+    let c = count > n;
+    let tm = time > t;
+    match shape {
+        0 => false,
+        1 => c,
+        2 => tm,
+        3 => c && tm,
+        _ => c || tm,
     }
 }
 
-/// two symbolic-time events under a symbolic limit: dispatched = longest admitted prefix,
-/// remaining returned with timestamps, end time = last dispatched timestamp
-fn c11_run2(n: usize, t: u32, tmax: u32, shape: u8) {
-    let lim = mk_limit(shape);
-    let lim2 = lim.clone();
-    let mut rt = mk_rt(n, t, lim);
-    let a = any_in(0, tmax);
-    let b = any_in(0, tmax);
+/// ONE dispatch step from an arbitrary point of a run: `itr` events already dispatched
+/// (symbolic), two pending events at symbolic times, limit of the given shape with symbolic
+/// parameters.  The step either stops (nothing handled, nothing lost) or handles exactly the
+/// earliest event - by induction a run dispatches exactly the longest admitted prefix.
+fn c11_step(nb: usize, tb: u32, shape: u8) {
+    let n: usize = kani::any();
+    kani::assume(n <= 4);
+    let t = any_in(0, 4);
+    let mut rt = mk_rt(nb, tb, mk_limit(shape, n, t));
+    let k: usize = kani::any();
+    kani::assume(k <= 4);
+    rt.itr = k;
+    let a = any_in(0, 3);
+    let b = any_in(0, 3);
     rt.add_event(Ev::Leaf(0), st(a));
     rt.add_event(Ev::Leaf(1), st(b));
-    let (t0, t1) = if b < a { (b, a) } else { (a, b) };
-    let (i0, i1) = if b < a { (1u8, 0u8) } else { (0u8, 1u8) };
-    rt.dispatch_all();
-    // expected prefix
-    let want = if stops(&lim2, 1, t0) { 0 } else if stops(&lim2, 2, t1) { 1 } else { 2 };
-    assert!(rt.app.n == want, "C11 run dispatches exactly the longest prefix the limit admits");
-    assert!(rt.num_events_dispatched() == want, "C11 dispatched counter equals admitted prefix");
-    if want >= 1 {
-        assert!(rt.app.ids[0] == i0 && rt.app.times[0] == t0, "C11 first dispatched event is the earliest");
+    let (fid, ft) = if b < a { (1u8, b) } else { (0u8, a) };
+    let stop = rt.dispatch_event();
+    let want = stops(shape, n, t, k + 1, ft);
+    assert!(stop == want, "C11 the run stops exactly when the limit (EventCount: count > n, SimTime: time > T, And/Or: logical combination) first holds for the next event");
+    if stop {
+        assert!(rt.app.n == 0, "C11 no event beyond the stopping point is executed");
+        assert!(rt.num_events_remaining() == 2, "C11 none of the undelivered events is lost");
+        assert!(rt.num_events_dispatched() == k, "C11 dispatched counter unchanged by a stop");
+        assert!(SimTime::now() == st(0), "C11 reported time stays the timestamp of the last dispatched event");
+    } else {
+        assert!(rt.app.n == 1 && rt.app.ids[0] == fid && rt.app.times[0] == ft, "C11 an admitted step handles exactly the earliest pending event");
+        assert!(rt.num_events_remaining() == 1 && rt.num_events_dispatched() == k + 1, "C11 counters after an admitted step");
+        assert!(SimTime::now() == st(ft), "C11 time after an admitted step is the event's timestamp");
     }
-    if want == 2 {
-        assert!(rt.app.ids[1] == i1 && rt.app.times[1] == t1, "C11 second dispatched event is the later one");
-    }
-    kani::cover!(want == 1, "REACH limit stops between the two events");
-    kani::cover!(want == 0, "REACH limit stops before the first event");
-    let res = rt.finish();
-    match res {
+    kani::cover!(stop, "COVER limit stops");
+    kani::cover!(!stop, "COVER limit admits");
+    kani::cover!(true, "REACH end of harness");
+    std::mem::forget(rt);
+}
+rt_harness!(c11_step_none_n1t8, 5, c11_step(1, 8, 0));
+rt_harness!(c11_step_count_n1t8, 5, c11_step(1, 8, 1));
+rt_harness!(c11_step_time_n1t8, 5, c11_step(1, 8, 2));
+rt_harness!(c11_step_and_n1t8, 5, c11_step(1, 8, 3));
+rt_harness!(c11_step_or_n1t8, 5, c11_step(1, 8, 4));
+rt_harness!(c11_step_builder_or_n1t8, 5, c11_step(1, 8, 5));
+rt_harness!(c11_step_count_n2t1, 5, c11_step(2, 1, 1));
+rt_harness!(c11_step_or_n2t1, 5, c11_step(2, 1, 4));
+
+/// finish() after a stop: every undelivered event is returned with its timestamp, in time
+/// order; the end time is the time of the last dispatched event; event_count exact.
+fn c11_finish(nb: usize, tb: u32) {
+    let mut rt = mk_rt(nb, tb, RuntimeLimit::EventCount(0));
+    let k: usize = kani::any();
+    kani::assume(k <= 4);
+    rt.itr = k;
+    let now = any_in(0, 2);
+    SimTime::set_now(st(now));
+    let a = any_in(now, 3);
+    let b = any_in(now, 3);
+    rt.add_event(Ev::Leaf(0), st(a));
+    rt.add_event(Ev::Leaf(1), st(b));
+    let (i0, t0, i1, t1) = if b < a { (1u8, b, 0u8, a) } else { (0u8, a, 1u8, b) };
+    match rt.finish() {
         Ok((app, end, prof)) => {
-            assert!(app.n == want, "C11 no event beyond the stopping point is executed");
-            assert!(prof.event_count == want, "C11 profiler event_count exact");
-            assert!(prof.remaining.len() == 2 - want, "C11 none of the undelivered events is lost");
-            if want == 1 {
-                assert!(prof.remaining[0].0 == Ev::Leaf(i1) && prof.remaining[0].1 == st(t1), "C11 remaining event returned with its timestamp");
-                assert!(end == st(t0), "C11 reported end time is the timestamp of the last dispatched event");
-            }
-            if want == 0 {
-                assert!(prof.remaining[0].0 == Ev::Leaf(i0) && prof.remaining[0].1 == st(t0), "C11 remaining events returned in time order with timestamps (first)");
-                assert!(prof.remaining[1].0 == Ev::Leaf(i1) && prof.remaining[1].1 == st(t1), "C11 remaining events returned in time order with timestamps (second)");
-                assert!(end == st(0), "C11 reported end time is the start time when nothing was dispatched");
-            }
-            if want == 2 {
-                assert!(end == st(t1), "C11 reported end time is the timestamp of the last dispatched event");
-            }
+            assert!(app.n == 0, "C11 finish executes no further event");
+            assert!(end == st(now), "C11 reported end time is the timestamp of the last dispatched event");
+            assert!(prof.event_count == k, "C11 profiler event_count exact");
+            assert!(prof.remaining.len() == 2, "C11 none of the undelivered events is lost");
+            assert!(prof.remaining[0].0 == Ev::Leaf(i0) && prof.remaining[0].1 == st(t0), "C11 remaining events returned in time order with their timestamps (first)");
+            assert!(prof.remaining[1].0 == Ev::Leaf(i1) && prof.remaining[1].1 == st(t1), "C11 remaining events returned in time order with their timestamps (second)");
             kani::cover!(true, "REACH end of harness");
-            std::mem::forget((app, prof, lim2));
+            std::mem::forget((app, prof));
         }
         Err(_) => assert!(false, "C11 finish must not fail"),
     }
 }
-rt_harness!(c11_run2_none_n1t2, 5, c11_run2(1, 2, 3, 0));
-rt_harness!(c11_run2_count_n1t2, 5, c11_run2(1, 2, 3, 1));
-rt_harness!(c11_run2_time_n1t2, 5, c11_run2(1, 2, 3, 2));
-rt_harness!(c11_run2_and_n1t2, 5, c11_run2(1, 2, 3, 3));
-rt_harness!(c11_run2_or_n1t2, 5, c11_run2(1, 2, 3, 4));
-rt_harness!(c11_run2_builder_or_n1t2, 5, c11_run2(1, 2, 3, 5));
-rt_harness!(c11_run2_count_n2t1, 5, c11_run2(2, 1, 3, 1));
-rt_harness!(c11_run2_time_n2t1, 5, c11_run2(2, 1, 3, 2));
-rt_harness!(c11_run2_or_n2t1, 5, c11_run2(2, 1, 3, 4));
+rt_harness!(c11_finish_returns_remaining_n1t8, 5, c11_finish(1, 8));
